@@ -24,7 +24,7 @@ REQUIRED_FEATURES = ["dump:region", "dump:region2", "dump:fill-lower", "dump:joi
                      "dump:one-based-ids", "dump:one-based-ids-alone", "dump:one-based-starts", "dump:header",
                      "dump:table-bins", "dump:table-chroms", "roundtrip:coo", "roundtrip:bg2", "roundtrip:one-based",
                      "roundtrip:square", "layout:load-nonmonotone", "layout:cload-pairs-nonmonotone", "via:subprocess",
-                     "bins-arg:chromsizes:binsize"]
+                     "bins-arg:chromsizes:binsize", "dump:fill-lower-straddling"]
 
 
 def plan(tier, seed):
@@ -179,6 +179,15 @@ def dump_case(ctx, cid, rng, idx):
                     if rng.random() < 0.5:
                         cb, Lb = ca, La
                     s2 = int(rng.integers(0, Lb)); e2 = int(rng.integers(s2 + 1, Lb + 1))
+                    if cb == ca and rng.random() < 0.6 and e1 - s1 >= 2:
+                        # overlapping / nested ranges around the diagonal, in both orders
+                        s2 = int(rng.integers(s1, e1)); e2 = int(rng.integers(s2 + 1, La + 1))
+                        if rng.random() < 0.5:
+                            s1, e1, s2, e2 = s2, e2, s1, e1
+                            region = f"{ca}:{s1}-{e1}"
+                            i0, i1 = (int(x) for x in clr.extent((ca, s1, e1)))
+                        if symm:
+                            opts["fill"] = bool(rng.random() < 0.7)
                     region2 = f"{cb}:{s2}-{e2}"
                     j0, j1 = (int(x) for x in clr.extent((cb, s2, e2)))
                     bbox = (i0, i1, j0, j1)
@@ -241,6 +250,39 @@ def dump_case(ctx, cid, rng, idx):
                 c.nontrivial(cid, desc)
             if rep < 2:
                 ctx.sample({"cmd": "cooler " + desc, "rows": len(want)}, limit=6)
+        # --fill-lower on windows straddling the diagonal: row and column ranges of one chromosome that
+        # overlap, in both orders (bin-aligned so that the overlap is never empty)
+        big = max(bt, key=lambda ce: len(ce[1]))
+        if symm and len(big[1]) >= 4:
+            cname, edges = big
+            nb = len(edges) - 1
+            for rep in range(6):
+                a = int(rng.integers(0, nb - 1)); b = int(rng.integers(a + 2, nb + 1)) if a + 2 <= nb else nb
+                c0 = int(rng.integers(a, b)); d0 = int(rng.integers(c0 + 1, nb + 1))
+                r1, r2 = (a, b), (c0, d0)
+                if rep % 2:
+                    r1, r2 = r2, r1
+                reg1 = f"{cname}:{edges[r1[0]]}-{edges[r1[1]]}"
+                reg2 = f"{cname}:{edges[r2[0]]}-{edges[r2[1]]}"
+                i0, i1 = (int(x) for x in clr.extent(reg1)); j0, j1 = (int(x) for x in clr.extent(reg2))
+                opts = {"fill": True, "join": bool(rep % 3 == 0), "bal": False, "ann": False, "obi": False, "obs": False,
+                        "hdr": False, "k": int([1, 3, 10**6][rep % 3])}
+                args = ["dump", "--fill-lower", "-k", str(opts["k"]), "-r", reg1, "-r2", reg2] + (["--join"] if opts["join"] else [])
+                rc, out, exc = invoke(args + [path])
+                c.feature("dump:fill-lower-straddling")
+                c.ctx.oracle_evals += 1
+                if rc != 0:
+                    c.fail("dump-failed", f"`cooler {' '.join(args)}` exit {rc}: {exc}")
+                    continue
+                want, _ = expected_rows(bt, n, symm, P, w, gc, opts, (i0, i1, j0, j1))
+                _, got = parse_rows(out, opts)
+                if not rows_equal(sorted(got, key=repr), sorted(want, key=repr)):
+                    order = "rows-start-before-columns" if i0 < j0 else "rows-start-at-or-after-columns"
+                    c.fail(f"dump-fill-lower-differs:straddling:{order}",
+                           f"`cooler {' '.join(args)}` does not list the symmetric completion of the window "
+                           f"rows [{i0},{i1}) x cols [{j0},{j1})", {"got": sorted(got, key=repr)[:8], "want": sorted(want, key=repr)[:8]})
+                if want:
+                    c.nontrivial(cid, "straddle", rep, reg1, reg2)
         # table dumps
         for table, cols, want_cols in (("chroms", None, ["name", "length"]), ("bins", None, ["chrom", "start", "end", "gc", "weight"]),
                                        ("bins", "start,gc", ["start", "gc"]), ("bins", "chrom", ["chrom"])):
